@@ -1,8 +1,22 @@
-(** C18 -- stub, replaced below *)
-From Coq Require Import List Bool Arith ZArith QArith Lia Lqa.
+(** C18 -- InterpolatableFunction honours its evaluation contract for every call history.
+
+    Theorems about the executable state machine [WG.Model.InterpFun] (tied to the running
+    class by the op-sequence differential of tools/props/C18.py, and to a few structural
+    facts of the source by [GenC18.InterpFacts]).  All theorems hold for EVERY finiteness
+    predicate [fin] of the user's function, every configuration (return dimension, threshold,
+    initial point count, adaptive flag) and every operation sequence.
+
+    External (not proved, validated on the real class on every run): scipy's CubicSpline
+    (represented by provenance tags; its constructor precondition is modelled) and the user's
+    function (only the finiteness of its rows matters to the class). *)
+From Coq Require Import List Bool Arith ZArith QArith Qabs Qround Lia Lqa.
 From WG Require Import Model.InterpFun.
 From GenC18 Require Import InterpFacts.
 Import ListNotations.
+Local Open Scope Q_scope.
+
+(* ------------------------------------------------------------------------------------ *)
+(** * Facts read off the source agree with the model *)
 
 Lemma facts_agree_l :
   src_stencil1 = stencil 1 /\ src_stencil2 = stencil 2 /\ src_fd_order = 4%nat /\
@@ -10,9 +24,977 @@ Lemma facts_agree_l :
   src_flag_is_function_mode = true /\ src_append_frac_table == 1 # 5 /\
   src_append_frac_notable == 1 # 2 /\ src_skip_single_point = true.
 Proof. vm_compute. repeat split; reflexivity || discriminate. Qed.
-Theorem facts_agree : src_stencil1 = stencil 1 /\ src_stencil2 = stencil 2 /\ src_fd_order = 4%nat /\
-  src_fd_call_plain = true /\ src_modes_before_rebuild = true /\ src_range_from_filtered = true /\
-  src_flag_is_function_mode = true /\ src_append_frac_table == 1 # 5 /\
-  src_append_frac_notable == 1 # 2 /\ src_skip_single_point = true.
-Proof. exact facts_agree_l. Qed.
-Print Assumptions facts_agree.
+
+(* ------------------------------------------------------------------------------------ *)
+(** * Lists of rationals *)
+
+Lemma Qle_bool_false a b : Qle_bool a b = false <-> b < a.
+Proof.
+  split; intro H.
+  - apply Qnot_le_lt. intro Hle. apply Qle_bool_iff in Hle. congruence.
+  - destruct (Qle_bool a b) eqn:E; [|reflexivity]. apply Qle_bool_iff in E. lra.
+Qed.
+
+Lemma Qlt_bool_false a b : Qlt_bool a b = false <-> b <= a.
+Proof.
+  unfold Qlt_bool. rewrite negb_false_iff. apply Qle_bool_iff.
+Qed.
+
+Lemma incrb_incr l : incrb l = true -> incr l.
+Proof.
+  induction l as [|x r IH]; cbn [incrb incr]; [auto|].
+  intro H. apply andb_true_iff in H. destruct H as [H1 H2]. split; [|auto].
+  destruct r; [exact I|]. apply Qlt_bool_iff; exact H1.
+Qed.
+
+Lemma incr_incrb l : incr l -> incrb l = true.
+Proof.
+  induction l as [|x r IH]; cbn [incrb incr]; [auto|].
+  intros [H1 H2]. apply andb_true_iff. split; [|auto].
+  destruct r; [reflexivity|]. apply Qlt_bool_iff; exact H1.
+Qed.
+
+(** every element of the tail is above the head *)
+Lemma incr_head_lt x r : incr (x :: r) -> forall y, In y r -> x < y.
+Proof.
+  revert x. induction r as [|z r IH]; intros x H y Hy; [destruct Hy|].
+  cbn [incr] in H. destruct H as [Hxz Hr]. destruct Hy as [<-|Hy]; [exact Hxz|].
+  specialize (IH z Hr y Hy). lra.
+Qed.
+
+Lemma incr_tail x r : incr (x :: r) -> incr r.
+Proof. cbn [incr]. tauto. Qed.
+
+Lemma incr_cons x r : incr r -> (forall y, In y r -> x < y) -> incr (x :: r).
+Proof.
+  intros Hr Hx. cbn [incr]. split; [|exact Hr]. destruct r; [exact I|]. apply Hx. left; reflexivity.
+Qed.
+
+Lemma incr_app l1 l2 : incr l1 -> incr l2 -> (forall x y, In x l1 -> In y l2 -> x < y) ->
+  incr (l1 ++ l2).
+Proof.
+  induction l1 as [|x r IH]; intros H1 H2 Hc; [exact H2|].
+  cbn [app]. apply incr_cons.
+  - apply IH; [eapply incr_tail; eauto|exact H2|]. intros u v Hu Hv. apply Hc; [right; exact Hu|exact Hv].
+  - intros y Hy. apply in_app_or in Hy. destruct Hy as [Hy|Hy].
+    + eapply incr_head_lt; eauto.
+    + apply Hc; [left; reflexivity|exact Hy].
+Qed.
+
+Lemma incr_filter (f : Q -> bool) l : incr l -> incr (filter f l).
+Proof.
+  induction l as [|x r IH]; intro H; [exact I|].
+  cbn [filter]. destruct (f x).
+  - apply incr_cons; [apply IH; eapply incr_tail; eauto|].
+    intros y Hy. apply filter_In in Hy. eapply incr_head_lt; [exact H|tauto].
+  - apply IH. eapply incr_tail; eauto.
+Qed.
+
+Lemma incr_last_gt l x d : incr l -> In x l -> x <= last l d.
+Proof.
+  revert x. induction l as [|y r IH]; intros x H Hx; [destruct Hx|].
+  destruct r as [|z r'].
+  - destruct Hx as [<-|[]]. cbn. lra.
+  - change (last (y :: z :: r') d) with (last (z :: r') d).
+    destruct Hx as [<-|Hx].
+    + assert (y < z) by (eapply incr_head_lt; [exact H|left; reflexivity]).
+      assert (z <= last (z :: r') d) by (apply IH; [eapply incr_tail; eauto|left; reflexivity]). lra.
+    + apply IH; [eapply incr_tail; eauto|exact Hx].
+Qed.
+
+Lemma incr_hd_le l x d : incr l -> In x l -> hd d l <= x.
+Proof.
+  destruct l as [|y r]; intros H Hx; [destruct Hx|].
+  cbn [hd]. destruct Hx as [<-|Hx]; [lra|]. apply Qlt_le_weak. eapply incr_head_lt; eauto.
+Qed.
+
+Lemma incr_hd_lt_last l d : incr l -> (2 <= length l)%nat -> hd d l < last l d.
+Proof.
+  destruct l as [|x [|y r]]; cbn [length]; intros H Hl; try lia.
+  cbn [hd]. assert (x < y) by (eapply incr_head_lt; [exact H|left; reflexivity]).
+  assert (y <= last (x :: y :: r) d).
+  { apply incr_last_gt; [exact H|right; left; reflexivity]. }
+  lra.
+Qed.
+
+(** np.min / np.max of a strictly increasing array are its ends *)
+Lemma fold_min_le l : forall a, (forall y, In y l -> a < y) ->
+  fold_left (fun a b => if Qlt_bool b a then b else a) l a = a.
+Proof.
+  induction l as [|x r IH]; intros a H; [reflexivity|].
+  cbn [fold_left]. assert (Hx : a < x) by (apply H; left; reflexivity).
+  replace (Qlt_bool x a) with false by (symmetry; apply Qlt_bool_false; lra).
+  apply IH. intros y Hy. apply H. right; exact Hy.
+Qed.
+
+Lemma qmin_incr l : incr l -> qmin l = hd 0 l.
+Proof.
+  destruct l as [|x r]; intro H; [reflexivity|].
+  cbn [qmin hd]. apply fold_min_le. apply incr_head_lt. exact H.
+Qed.
+
+Lemma fold_max_last l : forall a, incr (a :: l) ->
+  fold_left (fun a b => if Qlt_bool a b then b else a) l a = last (a :: l) 0.
+Proof.
+  induction l as [|x r IH]; intros a H; [reflexivity|].
+  cbn [fold_left]. assert (Hx : a < x) by (eapply incr_head_lt; [exact H|left; reflexivity]).
+  replace (Qlt_bool a x) with true by (symmetry; apply Qlt_bool_iff; exact Hx).
+  rewrite IH by (eapply incr_tail; eauto). reflexivity.
+Qed.
+
+Lemma qmax_incr l : incr l -> qmax l = last l 0.
+Proof.
+  destruct l as [|x r]; intro H; [reflexivity|].
+  cbn [qmax]. apply fold_max_last. exact H.
+Qed.
+
+(** equally spaced points *)
+Lemma incr_map_seq (f : nat -> Q) : (forall i, f i < f (S i)) ->
+  forall n a, incr (map f (seq a n)).
+Proof.
+  intros Hf n. induction n as [|n IH]; intro a; [exact I|].
+  cbn [seq map]. split; [|apply IH]. destruct n; [exact I|]. cbn [seq map]. apply Hf.
+Qed.
+
+Lemma qZ_S i : qZ (S i) == qZ i + 1.
+Proof. unfold qZ. rewrite Nat2Z.inj_succ. unfold Z.succ. rewrite inject_Z_plus. reflexivity. Qed.
+
+Lemma qZ_lt i j : (i < j)%nat -> qZ i < qZ j.
+Proof. intro H. unfold qZ. rewrite <- Zlt_Qlt. lia. Qed.
+
+Lemma qZ_pos i : (0 < i)%nat -> 0 < qZ i.
+Proof. intro H. change 0 with (qZ 0). apply qZ_lt. exact H. Qed.
+
+Lemma grid_step a d i : 0 < d -> Qred (a + qZ i * d) < Qred (a + qZ (S i) * d).
+Proof. intro Hd. rewrite !Qred_correct, qZ_S. nra. Qed.
+
+Lemma div_pos a b n : a < b -> (0 < n)%nat -> 0 < (b - a) / qZ n.
+Proof.
+  intros H Hn. apply Qlt_shift_div_l; [apply qZ_pos; exact Hn|]. lra.
+Qed.
+
+Lemma grid_below a b n i : a < b -> (i < n)%nat -> Qred (a + qZ i * ((b - a) / qZ n)) < b.
+Proof.
+  intros H Hi. rewrite Qred_correct.
+  assert (Hn : 0 < qZ n) by (apply qZ_pos; lia).
+  assert (Hq : qZ i < qZ n) by (apply qZ_lt; exact Hi).
+  assert (Hd : 0 < (b - a) / qZ n) by (apply div_pos; [exact H|lia]).
+  assert (E : qZ n * ((b - a) / qZ n) == b - a) by (field; lra).
+  nra.
+Qed.
+
+Lemma grid_above a b n i : a < b -> (0 < n)%nat -> (0 < i)%nat ->
+  a < Qred (a + qZ i * ((b - a) / qZ n)).
+Proof.
+  intros H Hn Hi. rewrite Qred_correct.
+  assert (Hd : 0 < (b - a) / qZ n) by (apply div_pos; assumption).
+  assert (Hq : 0 < qZ i) by (apply qZ_pos; exact Hi). nra.
+Qed.
+
+Lemma linspace_open_incr a b n : a < b -> incr (linspace_open a b n).
+Proof.
+  intro H. unfold linspace_open. destruct n; [exact I|].
+  apply incr_map_seq. intro i. apply grid_step. apply div_pos; [exact H|lia].
+Qed.
+
+Lemma linspace_open_below a b n x : a < b -> In x (linspace_open a b n) -> x < b.
+Proof.
+  intros H Hx. unfold linspace_open in Hx. apply in_map_iff in Hx. destruct Hx as [i [<- Hi]].
+  apply in_seq in Hi. apply grid_below; [exact H|lia].
+Qed.
+
+Lemma linspace_incr a b n : a < b -> incr (linspace a b n).
+Proof.
+  intro H. unfold linspace. destruct n as [|[|m]]; [exact I|cbn; auto|].
+  apply incr_map_seq. intro i. apply grid_step. apply div_pos; [exact H|lia].
+Qed.
+
+Lemma linspace_tail_incr a b n : a < b -> (0 < n)%nat -> incr (tl (linspace a b (S n))).
+Proof.
+  intros H Hn. pose proof (linspace_incr a b (S n) H) as Hi.
+  destruct (linspace a b (S n)); [exact I|]. cbn [tl]. eapply incr_tail; eauto.
+Qed.
+
+Lemma linspace_tail_above a b n x : a < b -> (0 < n)%nat -> In x (tl (linspace a b (S n))) -> a < x.
+Proof.
+  intros H Hn Hx. destruct n as [|m]; [lia|].
+  change (linspace a b (S (S m))) with
+    (map (fun i => Qred (a + qZ i * ((b - a) / qZ (S m)))) (0%nat :: seq 1 (S m))) in Hx.
+  cbn [map tl] in Hx. apply in_map_iff in Hx. destruct Hx as [i [<- Hi]].
+  apply in_seq in Hi. apply grid_above; [exact H|lia|lia].
+Qed.
+
+Lemma filter_all {A} (f : A -> bool) l : (forall x, In x l -> f x = true) -> filter f l = l.
+Proof.
+  induction l as [|x r IH]; intro H; [reflexivity|].
+  cbn [filter]. rewrite (H x (or_introl eq_refl)). f_equal. apply IH. intros y Hy. apply H. right; exact Hy.
+Qed.
+
+(* ------------------------------------------------------------------------------------ *)
+(** * The invariant *)
+Section Props.
+Variable fin : Q -> bool.
+
+(** what holds of the table whenever one exists *)
+Definition TInv (s : st) : Prop :=
+  hasT s = true ->
+  incr (tab s) /\ (2 <= length (tab s))%nat /\
+  rmin s = hd 0 (tab s) /\ rmax s = last (tab s) 0 /\
+  extrap s = (is_fun (mlo s) || is_fun (mhi s)) /\
+  (forall x, In x (tab s) -> fin x = true).
+(** adaptive bookkeeping *)
+Definition CInv (s : st) : Prop :=
+  cnt s = length (pend s) /\ ((0 < cfg_thr s)%nat -> (cnt s < cfg_thr s)%nat).
+Definition Inv (s : st) : Prop := TInv s /\ CInv s.
+
+Definition cfg (s : st) := (cfg_k s, cfg_thr s, cfg_n0 s).
+(** [s'] is a legal successor of [s] *)
+Definition Good (s s' : st) : Prop := Inv s' /\ cfg s' = cfg s.
+
+Lemma Good_refl s : Inv s -> Good s s.
+Proof. intro H. split; [exact H|reflexivity]. Qed.
+Lemma Good_trans s1 s2 s3 : Good s1 s2 -> Good s2 s3 -> Good s1 s3.
+Proof. intros [_ E1] [H2 E2]. split; [exact H2|congruence]. Qed.
+
+Lemma init_inv k thr n0 a : (0 < thr)%nat -> Inv (init k thr n0 a).
+Proof.
+  intro Ht. split.
+  - intro H. discriminate H.
+  - split; [reflexivity|]. intros _. exact Ht.
+Qed.
+
+Lemma TInv_set_adapt s a c p : TInv s -> TInv (set_adapt s a c p).
+Proof. intros H. exact H. Qed.
+
+Lemma Inv_reset s a : TInv s -> Inv (set_adapt s a 0 []).
+Proof. intro H. split; [exact H|]. split; [reflexivity|]. intro Ht. exact Ht. Qed.
+
+Lemma TInv_set_table s xf : incr xf -> (2 <= length xf)%nat -> (forall x, In x xf -> fin x = true) ->
+  TInv (set_table s xf (qmin xf) (qmax xf) (is_fun (mlo s) || is_fun (mhi s))).
+Proof.
+  intros Hi Hl Hf _. cbn. repeat split; auto using qmin_incr, qmax_incr.
+Qed.
+
+(** [interpolate]: either the filtered points are a valid knot sequence and become the table
+    (each non-finite row dropped individually, every finite one kept), or ValueError and
+    nothing changes *)
+Lemma interpolate_cases s xs :
+  let xf := filter fin xs in
+  (incr xf /\ (2 <= length xf)%nat /\
+   interpolate fin s xs = (set_table s xf (qmin xf) (qmax xf) (is_fun (mlo s) || is_fun (mhi s)), Ok tt))
+  \/ (~ (incr xf /\ (2 <= length xf)%nat) /\ interpolate fin s xs = (s, Err EValue)).
+Proof.
+  intro xf. unfold interpolate. fold xf.
+  destruct ((2 <=? length xf)%nat) eqn:E1; cbn [andb].
+  - destruct (incrb xf) eqn:E2.
+    + left. apply Nat.leb_le in E1. auto using incrb_incr.
+    + right. split; [|reflexivity]. intros [Hi _]. apply incr_incrb in Hi. congruence.
+  - right. split; [|reflexivity]. intros [_ Hl]. apply Nat.leb_gt in E1. lia.
+Qed.
+
+Lemma interpolate_good s xs : Inv s -> Good s (fst (interpolate fin s xs)).
+Proof.
+  intros [HT HC]. destruct (interpolate_cases s xs) as [[Hi [Hl E]]|[_ E]]; rewrite E; cbn [fst].
+  - split; [split|reflexivity]; [|exact HC].
+    apply TInv_set_table; auto. intros x Hx. apply filter_In in Hx. tauto.
+  - apply Good_refl. split; assumption.
+Qed.
+
+(** re-interpolating the stored table always succeeds and changes only the extrapolate flag *)
+Lemma interpolate_tab s : TInv s -> hasT s = true ->
+  interpolate fin s (tab s) =
+  (set_table s (tab s) (rmin s) (rmax s) (is_fun (mlo s) || is_fun (mhi s)), Ok tt).
+Proof.
+  intros HT Hh. destruct (HT Hh) as [Hi [Hl [Hmin [Hmax [_ Hf]]]]].
+  destruct (interpolate_cases s (tab s)) as [[_ [_ E]]|[N _]].
+  - rewrite E. rewrite (filter_all fin (tab s) Hf). rewrite (qmin_incr _ Hi), (qmax_incr _ Hi).
+    rewrite <- Hmin, <- Hmax. reflexivity.
+  - exfalso. apply N. rewrite (filter_all fin (tab s) Hf). auto.
+Qed.
+
+Lemma newTable_good s a b n : Inv s -> Good s (fst (newTable fin s a b n)).
+Proof. apply interpolate_good. Qed.
+
+(** the abscissae handed to the spline by an extension are strictly increasing BY
+    CONSTRUCTION (exact-arithmetic np.linspace), so an extension of an existing table never
+    fails and never reorders *)
+Lemma extend_points_incr s newMin newMax pLo pHi : TInv s -> hasT s = true ->
+  let lo := if Qlt_bool newMin (rmin s) && (0 <? pLo)%nat then linspace_open newMin (rmin s) pLo else [] in
+  let hi := if Qlt_bool (rmax s) newMax && (0 <? pHi)%nat then tl (linspace (rmax s) newMax (S pHi)) else [] in
+  incr (lo ++ tab s ++ hi) /\ (forall x, In x lo -> x < rmin s) /\ (forall x, In x hi -> rmax s < x).
+Proof.
+  intros HT Hh lo hi. destruct (HT Hh) as [Hi [Hl [Hmin [Hmax _]]]].
+  assert (Hlo : incr lo /\ forall x, In x lo -> x < rmin s).
+  { unfold lo. destruct (Qlt_bool newMin (rmin s)) eqn:E; cbn [andb]; [|split; [exact I|intros x []]].
+    destruct (0 <? pLo)%nat; [|split; [exact I|intros x []]].
+    apply Qlt_bool_iff in E. split; [apply linspace_open_incr; exact E|].
+    intros x Hx. eapply linspace_open_below; eauto. }
+  assert (Hhi : incr hi /\ forall x, In x hi -> rmax s < x).
+  { unfold hi. destruct (Qlt_bool (rmax s) newMax) eqn:E; cbn [andb]; [|split; [exact I|intros x []]].
+    destruct (0 <? pHi)%nat eqn:E2; [|split; [exact I|intros x []]].
+    apply Qlt_bool_iff in E. apply Nat.ltb_lt in E2. split; [apply linspace_tail_incr; assumption|].
+    intros x Hx. eapply linspace_tail_above; eauto. }
+  destruct Hlo as [Hlo1 Hlo2]. destruct Hhi as [Hhi1 Hhi2]. split; [|split; assumption].
+  apply incr_app; [exact Hlo1| |].
+  - apply incr_app; [exact Hi|exact Hhi1|]. intros x y Hx Hy.
+    assert (x <= rmax s) by (rewrite Hmax; apply incr_last_gt; assumption).
+    specialize (Hhi2 y Hy). lra.
+  - intros x y Hx Hy. specialize (Hlo2 x Hx). apply in_app_or in Hy. destruct Hy as [Hy|Hy].
+    + assert (rmin s <= y) by (rewrite Hmin; apply incr_hd_le; assumption). lra.
+    + specialize (Hhi2 y Hy).
+      assert (rmin s < rmax s) by (rewrite Hmin, Hmax; apply incr_hd_lt_last; assumption). lra.
+Qed.
+
+Lemma filter_app_length {A} (f : A -> bool) l1 l2 l3 :
+  (forall x, In x l2 -> f x = true) -> (length l2 <= length (filter f (l1 ++ l2 ++ l3)))%nat.
+Proof.
+  intro H. rewrite !filter_app, !app_length. rewrite (filter_all f l2 H). lia.
+Qed.
+
+Lemma extend_total s newMin newMax pLo pHi : TInv s -> hasT s = true ->
+  exists s', extend fin s newMin newMax pLo pHi = (s', Ok tt).
+Proof.
+  intros HT Hh. unfold extend. rewrite Hh. cbn [negb].
+  destruct (extend_points_incr s newMin newMax pLo pHi HT Hh) as [Hi _].
+  destruct (HT Hh) as [_ [Hl [_ [_ [_ Hf]]]]].
+  match goal with |- context [interpolate fin s ?X] =>
+    destruct (interpolate_cases s X) as [[_ [_ E]]|[N _]] end.
+  - rewrite E. eexists; reflexivity.
+  - exfalso. apply N. split; [apply incr_filter; exact Hi|].
+    eapply Nat.le_trans; [exact Hl|apply filter_app_length; exact Hf].
+Qed.
+
+Lemma extend_good s newMin newMax pLo pHi : Inv s -> Good s (fst (extend fin s newMin newMax pLo pHi)).
+Proof.
+  intro HI. unfold extend. destruct (hasT s); cbn [negb]; [|apply newTable_good; exact HI].
+  match goal with |- context [interpolate fin s ?X] =>
+    pose proof (interpolate_good s X HI) as G; destruct (interpolate fin s X) as [s' [u|e]] end;
+    cbn [fst] in *; [|exact G].
+  destruct (adaptive s'); [|exact G]. destruct G as [[GT _] Gc].
+  split; [apply Inv_reset; exact GT|exact Gc].
+Qed.
+
+Lemma adaptiveUpdate_good s : TInv s -> Good s (fst (adaptiveUpdate fin s)).
+Proof.
+  intro HT. unfold adaptiveUpdate.
+  assert (H0 : Inv (set_adapt s (adaptive s) 0 [])) by (apply Inv_reset; exact HT).
+  assert (G0 : Good s (set_adapt s (adaptive s) 0 [])) by (split; [exact H0|reflexivity]).
+  destruct (hasT s).
+  - eapply Good_trans; [exact G0|apply extend_good; exact H0].
+  - destruct (Qeq_bool _ _); [exact G0|].
+    eapply Good_trans; [exact G0|apply extend_good; exact H0].
+Qed.
+
+Lemma schedule_good s pts : Inv s -> Good s (fst (schedule fin s pts)).
+Proof.
+  intros [HT HC]. unfold schedule. destruct (usort (filter fin pts)) as [|x xv] eqn:E.
+  - apply Good_refl. split; assumption.
+  - set (s1 := set_adapt s (adaptive s) (cnt s + length (x :: xv)) (pend s ++ x :: xv)).
+    destruct (cfg_thr s1 <=? cnt s1)%nat eqn:Et.
+    + pose proof (adaptiveUpdate_good s1 HT) as G. destruct G as [G1 G2]. split; [exact G1|exact G2].
+    + cbn [fst]. split; [|reflexivity]. split; [exact HT|]. apply Nat.leb_gt in Et.
+      destruct HC as [Hc _]. split; [|intros _; exact Et].
+      unfold s1. cbn [cnt pend set_adapt]. rewrite app_length, Hc. reflexivity.
+Qed.
+
+Lemma evalDirect_good s pts : Inv s -> Good s (fst (evalDirect fin s pts)).
+Proof.
+  intro HI. unfold evalDirect. destruct (adaptive s); [|apply Good_refl; exact HI].
+  pose proof (schedule_good s pts HI) as G.
+  destruct (schedule fin s pts) as [s' [u|e]]; exact G.
+Qed.
+
+Lemma side_good s m edge mask pts acc : Inv s -> Good s (fst (side fin s m edge mask pts acc)).
+Proof.
+  intro HI. unfold side. destruct (existsb _ mask); [|apply Good_refl; exact HI].
+  destruct m; try (apply Good_refl; exact HI).
+  pose proof (evalDirect_good s (select mask pts) HI) as G.
+  destruct (evalDirect fin s (select mask pts)) as [s' [u|e]]; exact G.
+Qed.
+
+Lemma evalOOB_good s pts : Inv s -> Good s (fst (evalOOB fin s pts)).
+Proof.
+  intro HI. unfold evalOOB.
+  destruct (mode_eqb (mlo s) ERROR && mode_eqb (mhi s) ERROR); [apply Good_refl; exact HI|].
+  destruct (negb (hasT s) || _); [apply evalDirect_good; exact HI|].
+  match goal with |- context [side fin s ?m ?e ?k ?p ?a] =>
+    pose proof (side_good s m e k p a HI) as G; destruct (side fin s m e k p a) as [s1 [acc1|e1]] end;
+    cbn [fst] in *; [|exact G].
+  eapply Good_trans; [exact G|]. apply side_good. exact (proj1 G).
+Qed.
+
+Lemma evaluate_good s u sh pts : Inv s -> Good s (fst (evaluate fin s u sh pts)).
+Proof.
+  intro HI. unfold evaluate. destruct (negb u || negb (hasT s)).
+  - pose proof (evalDirect_good s pts HI) as G. destruct (evalDirect fin s pts) as [s' [a|e]]; exact G.
+  - destruct (select _ pts) as [|o out]; [apply Good_refl; exact HI|].
+    pose proof (evalOOB_good s (o :: out) HI) as G.
+    destruct (evalOOB fin s (o :: out)) as [s' [a|e]]; exact G.
+Qed.
+
+Lemma twice_good (f : st -> list Q -> st * res (list tag)) s pos :
+  (forall s p, Inv s -> Good s (fst (f s p))) -> Inv s -> Good s (fst (twice f s pos)).
+Proof.
+  intros Hf HI. unfold twice. pose proof (Hf s pos HI) as G.
+  destruct (f s pos) as [s1 [a|e]]; cbn [fst] in *; [|exact G].
+  eapply Good_trans; [exact G|apply Hf; exact (proj1 G)].
+Qed.
+
+Lemma derivative_good s n u sh pts dx pos : Inv s ->
+  Good s (fst (derivative fin s n u sh pts dx pos)).
+Proof.
+  intro HI. unfold derivative. destruct (negb u || negb (hasT s) || (2 <? n)%nat).
+  - destruct ((2 <? n)%nat || (n =? 0)%nat); [apply Good_refl; exact HI|].
+    pose proof (twice_good (evalDirect fin) s pos (evalDirect_good) HI) as G.
+    destruct (twice (evalDirect fin) s pos) as [s' [a|e]]; exact G.
+  - destruct (select _ pts) as [|o out]; [apply Good_refl; exact HI|].
+    match goal with |- context [twice (evalOOB fin) s ?P] =>
+      pose proof (twice_good (evalOOB fin) s P (evalOOB_good) HI) as G;
+      destruct (twice (evalOOB fin) s P) as [s' [a|e]] end; exact G.
+Qed.
+
+Lemma setModes_good s a b : Inv s -> Good s (fst (setModes fin s a b)).
+Proof.
+  intros [HT HC]. unfold setModes. destruct (hasT (set_modes s a b)) eqn:Hh.
+  - assert (HT1 : incr (tab s) /\ (2 <= length (tab s))%nat /\ rmin s = hd 0 (tab s) /\
+                  rmax s = last (tab s) 0 /\ (forall x, In x (tab s) -> fin x = true)).
+    { destruct (HT Hh) as [? [? [? [? [? ?]]]]]. auto. }
+    destruct HT1 as [Hi [Hl [Hmin [Hmax Hf]]]].
+    destruct (interpolate_cases (set_modes s a b) (tab (set_modes s a b))) as [[_ [_ E]]|[N _]].
+    + rewrite E. cbn [fst]. split; [split|reflexivity]; [|exact HC].
+      apply TInv_set_table; cbn [tab set_modes]; rewrite (filter_all fin (tab s) Hf); auto.
+    + exfalso. apply N. cbn [tab set_modes]. rewrite (filter_all fin (tab s) Hf). auto.
+  - cbn [fst]. split; [split|reflexivity]; [|exact HC]. intro H. cbn in H, Hh. congruence.
+Qed.
+
+Lemma writeRead_good s : Inv s -> Good s (fst (writeRead fin s)).
+Proof.
+  intro HI. unfold writeRead. destruct (hasT s); [apply interpolate_good; exact HI|apply Good_refl; exact HI].
+Qed.
+
+Lemma step_good s o : Inv s -> Good s (fst (step fin s o)).
+Proof.
+  intro HI. destruct o; cbn [step].
+  - pose proof (newTable_good s a b n HI) as G. destruct (newTable fin s a b n); exact G.
+  - pose proof (evaluate_good s useInterp shape pts HI) as G. destruct (evaluate fin s useInterp shape pts); exact G.
+  - pose proof (derivative_good s order useInterp shape pts dx pos HI) as G.
+    destruct (derivative fin s order useInterp shape pts dx pos); exact G.
+  - pose proof (extend_good s a b nlo nhi HI) as G. destruct (extend fin s a b nlo nhi); exact G.
+  - pose proof (setModes_good s lo hi HI) as G. destruct (setModes fin s lo hi); exact G.
+  - cbn [fst]. split; [apply Inv_reset; exact (proj1 HI)|reflexivity].
+  - cbn [fst]. apply Good_refl in HI. exact HI.
+  - pose proof (schedule_good s pts HI) as G. destruct (schedule fin s pts); exact G.
+  - pose proof (writeRead_good s HI) as G. destruct (writeRead fin s); exact G.
+Qed.
+
+Lemma run_good ops : forall s, Inv s -> Good s (run fin s ops).
+Proof.
+  induction ops as [|o r IH]; intros s HI; [apply Good_refl; exact HI|].
+  cbn [run]. pose proof (step_good s o HI) as G.
+  eapply Good_trans; [exact G|apply IH; exact (proj1 G)].
+Qed.
+
+(* ------------------------------------------------------------------------------------ *)
+(** * Element-wise dispatch *)
+
+Definition dirtag (q : Q) : tag := if fin q then Dir q else DirNaN q.
+
+(** what the selected modes prescribe for ONE element (the property's statement) *)
+Definition spec_tag (s : st) (d : nat) (q : Q) : tag :=
+  if inrange s q then Spl d KIn q
+  else if Qle_bool q (rmin s) then
+    match mlo s with
+    | NONE => dirtag q | CONSTANT => Spl 0 KIn (rmin s) | FUNCTION => Spl 0 KExt q | ERROR => Uninit
+    end
+  else
+    match mhi s with
+    | NONE => dirtag q | CONSTANT => Spl 0 KIn (rmax s) | FUNCTION => Spl 0 KExt q | ERROR => Uninit
+    end.
+
+Lemma scatter_nil {A} mask (base : list A) : scatter mask [] base = base.
+Proof.
+  revert base. induction mask as [|m mr IH]; intros [|b br]; try reflexivity.
+  cbn [scatter]. destruct m; rewrite IH; reflexivity.
+Qed.
+
+Lemma scatter_map {A B} (m : A -> bool) (g f : A -> B) l :
+  scatter (map m l) (map g (select (map m l) l)) (map f l) =
+  map (fun x => if m x then g x else f x) l.
+Proof.
+  induction l as [|x r IH]; [reflexivity|].
+  cbn [map select scatter]. destruct (m x); cbn [map]; rewrite IH; reflexivity.
+Qed.
+
+Lemma scatter_length {A} mask (vals base : list A) : length (scatter mask vals base) = length base.
+Proof.
+  revert vals base. induction mask as [|m mr IH]; intros vals [|b br]; try reflexivity.
+  cbn [scatter]. destruct m; [destruct vals|]; cbn [length]; rewrite IH; reflexivity.
+Qed.
+
+(** cells outside the mask keep what they had *)
+Lemma scatter_keep {A} mask (vals base : list A) i :
+  nth_error mask i = Some false -> nth_error (scatter mask vals base) i = nth_error base i.
+Proof.
+  revert vals base i. induction mask as [|m mr IH]; intros vals base i H; [destruct i; discriminate|].
+  destruct base as [|b br]; [reflexivity|]. destruct i as [|i].
+  - cbn in H. injection H as ->. reflexivity.
+  - cbn [nth_error] in H. cbn [scatter]. destruct m; [destruct vals|]; cbn [nth_error]; apply IH; exact H.
+Qed.
+
+Lemma select_In {A} (m : A -> bool) l x : In x (select (map m l) l) -> m x = true /\ In x l.
+Proof.
+  induction l as [|y r IH]; [intros []|].
+  cbn [map select]. destruct (m y) eqn:E.
+  - intros [<-|H]; [split; [exact E|left; reflexivity]|]. destruct (IH H). split; [assumption|right; assumption].
+  - intro H. destruct (IH H). split; [assumption|right; assumption].
+Qed.
+
+Lemma existsb_map_false {A} (m : A -> bool) l :
+  existsb (fun b => b) (map m l) = false -> forall x, In x l -> m x = false.
+Proof.
+  induction l as [|y r IH]; [intros _ x []|].
+  cbn [map existsb]. intro H. apply orb_false_iff in H. destruct H as [H1 H2].
+  intros x [<-|Hx]; [exact H1|apply IH; assumption].
+Qed.
+
+Lemma mode_eqb_eq a b : mode_eqb a b = true <-> a = b.
+Proof. destruct a, b; cbn; split; intro H; congruence. Qed.
+
+Lemma evalDirect_pure s pts : adaptive s = false -> evalDirect fin s pts = (s, Ok (map dirtag pts)).
+Proof. intro H. unfold evalDirect. rewrite H. reflexivity. Qed.
+
+Definition side_tag (s : st) (m : mode) (edge q : Q) : tag :=
+  match m with
+  | NONE => dirtag q | CONSTANT => splineAt s 0 edge | FUNCTION => splineAt s 0 q | ERROR => Uninit
+  end.
+
+Lemma side_pure s m edge (mk : Q -> bool) pts (f : Q -> tag) : adaptive s = false -> m <> ERROR ->
+  side fin s m edge (map mk pts) pts (map f pts) =
+  (s, Ok (map (fun q => if mk q then side_tag s m edge q else f q) pts)).
+Proof.
+  intros Ha Hm. unfold side. destruct (existsb (fun b => b) (map mk pts)) eqn:E.
+  - destruct m; [congruence| | |].
+    + rewrite evalDirect_pure by exact Ha. rewrite scatter_map. reflexivity.
+    + rewrite (scatter_map mk (fun _ => splineAt s 0 edge) f). reflexivity.
+    + rewrite scatter_map. reflexivity.
+  - f_equal. f_equal. apply map_ext_in. intros q Hq.
+    rewrite (existsb_map_false mk pts E q Hq). reflexivity.
+Qed.
+
+Definition oob_tag (s : st) (q : Q) : tag :=
+  if Qle_bool (rmax s) q then side_tag s (mhi s) (rmax s) q else side_tag s (mlo s) (rmin s) q.
+
+Lemma evalOOB_pure s pts : adaptive s = false -> hasT s = true -> mlo s <> ERROR -> mhi s <> ERROR ->
+  (forall q, In q pts -> Qle_bool q (rmin s) || Qle_bool (rmax s) q = true) ->
+  evalOOB fin s pts = (s, Ok (map (oob_tag s) pts)).
+Proof.
+  intros Ha Hh Hlo Hhi Hout. unfold evalOOB.
+  replace (mode_eqb (mlo s) ERROR) with false
+    by (symmetry; destruct (mode_eqb (mlo s) ERROR) eqn:E; [apply mode_eqb_eq in E; congruence|reflexivity]).
+  cbn [andb]. rewrite Hh. cbn [negb orb].
+  destruct (mode_eqb (mlo s) NONE && mode_eqb (mhi s) NONE) eqn:EN.
+  - apply andb_true_iff in EN. destruct EN as [E1 E2]. apply mode_eqb_eq in E1, E2.
+    rewrite evalDirect_pure by exact Ha. f_equal. f_equal. apply map_ext. intro q.
+    unfold oob_tag. rewrite E1, E2. destruct (Qle_bool (rmax s) q); reflexivity.
+  - rewrite (side_pure s (mlo s) (rmin s) (fun q => Qle_bool q (rmin s)) pts _ Ha Hlo).
+    rewrite (side_pure s (mhi s) (rmax s) (fun q => Qle_bool (rmax s) q) pts _ Ha Hhi).
+    f_equal. f_equal. apply map_ext_in. intros q Hq. specialize (Hout q Hq). unfold oob_tag.
+    destruct (Qle_bool (rmax s) q); [reflexivity|]. rewrite orb_false_r in Hout. rewrite Hout. reflexivity.
+Qed.
+
+Lemma inrange_iff s q : inrange s q = true <-> rmin s <= q <= rmax s.
+Proof.
+  unfold inrange. rewrite andb_true_iff, !Qle_bool_iff. tauto.
+Qed.
+
+Lemma inrange_false s q : inrange s q = false -> q < rmin s \/ rmax s < q.
+Proof.
+  unfold inrange. intro H. apply andb_false_iff in H. destruct H as [H|H]; apply Qle_bool_false in H; auto.
+Qed.
+
+Lemma splineAt_in s d q : TInv s -> hasT s = true -> rmin s <= q <= rmax s -> splineAt s d q = Spl d KIn q.
+Proof.
+  intros HT Hh [H1 H2]. destruct (HT Hh) as [_ [_ [Hmin [Hmax _]]]]. unfold splineAt.
+  rewrite <- Hmin, <- Hmax.
+  replace (Qle_bool (rmin s) q) with true by (symmetry; apply Qle_bool_iff; exact H1).
+  replace (Qle_bool q (rmax s)) with true by (symmetry; apply Qle_bool_iff; exact H2). reflexivity.
+Qed.
+
+Lemma splineAt_out s d q : TInv s -> hasT s = true -> (q < rmin s \/ rmax s < q) ->
+  splineAt s d q = if extrap s then Spl d KExt q else Spl d KNan q.
+Proof.
+  intros HT Hh H. destruct (HT Hh) as [_ [_ [Hmin [Hmax _]]]]. unfold splineAt.
+  rewrite <- Hmin, <- Hmax. destruct H as [H|H].
+  - replace (Qle_bool (rmin s) q) with false by (symmetry; apply Qle_bool_false; exact H). reflexivity.
+  - replace (Qle_bool q (rmax s)) with false by (symmetry; apply Qle_bool_false; exact H).
+    rewrite andb_false_r. reflexivity.
+Qed.
+
+Lemma range_nonempty s : TInv s -> hasT s = true -> rmin s < rmax s.
+Proof.
+  intros HT Hh. destruct (HT Hh) as [Hi [Hl [Hmin [Hmax _]]]]. rewrite Hmin, Hmax.
+  apply incr_hd_lt_last; assumption.
+Qed.
+
+(** outside the table the out-of-bounds branch produces exactly what the mode of that side
+    prescribes; in particular a FUNCTION side is always answered by an EXTRAPOLATING spline
+    (never nan) and a CONSTANT side by the spline at the stored end point *)
+Lemma oob_is_spec s q : TInv s -> hasT s = true -> mlo s <> ERROR -> mhi s <> ERROR ->
+  inrange s q = false -> oob_tag s q = spec_tag s 0 q.
+Proof.
+  intros HT Hh Hlo Hhi Hq. pose proof (range_nonempty s HT Hh) as Hr.
+  destruct (HT Hh) as [_ [_ [_ [_ [Hex _]]]]].
+  unfold oob_tag, spec_tag. rewrite Hq. pose proof (inrange_false s q Hq) as Hside.
+  destruct (Qle_bool (rmax s) q) eqn:Eu.
+  - apply Qle_bool_iff in Eu.
+    assert (Hup : rmax s < q) by (destruct Hside; lra).
+    replace (Qle_bool q (rmin s)) with false by (symmetry; apply Qle_bool_false; lra).
+    unfold side_tag. destruct (mhi s) eqn:Em; [congruence|reflexivity| |].
+    + apply splineAt_in; auto. lra.
+    + rewrite splineAt_out by auto. rewrite Hex. try rewrite Em. cbn [is_fun]. rewrite ?orb_true_r. reflexivity.
+  - apply Qle_bool_false in Eu.
+    assert (Hdn : q < rmin s) by (destruct Hside; lra).
+    replace (Qle_bool q (rmin s)) with true by (symmetry; apply Qle_bool_iff; lra).
+    unfold side_tag. destruct (mlo s) eqn:Em; [congruence|reflexivity| |].
+    + apply splineAt_in; auto. lra.
+    + rewrite splineAt_out by auto. rewrite Hex. try rewrite Em. cbn [is_fun orb]. reflexivity.
+Qed.
+
+(** DISPATCH: with a table, without adaptive bookkeeping in the way and no ERROR mode,
+    [evaluate] is the element-wise map of the specification, leaves the state alone and
+    returns the input shape (plus the value axis) *)
+Lemma evaluate_spec_l s sh pts : Inv s -> hasT s = true -> adaptive s = false ->
+  mlo s <> ERROR -> mhi s <> ERROR ->
+  evaluate fin s true sh pts = (s, Ok (oshape (cfg_k s) sh, map (spec_tag s 0) pts)).
+Proof.
+  intros [HT _] Hh Ha Hlo Hhi. unfold evaluate. rewrite Hh. cbn [negb orb].
+  rewrite map_map.
+  set (m' := fun q => negb (inrange s q)).
+  set (base := map (fun q => if inrange s q then splineAt s 0 q else Uninit) pts).
+  assert (E : forall ts, ts = map (oob_tag s) (select (map m' pts) pts) ->
+            scatter (map m' pts) ts base = map (spec_tag s 0) pts).
+  { intros ts ->. unfold base. rewrite scatter_map. apply map_ext. intro q. unfold m'.
+    destruct (inrange s q) eqn:Eq; cbn [negb].
+    - unfold spec_tag. rewrite Eq. apply splineAt_in; auto. apply inrange_iff; exact Eq.
+    - apply oob_is_spec; auto. }
+  destruct (select (map m' pts) pts) as [|o out] eqn:Es.
+  - rewrite <- (E [] eq_refl). rewrite scatter_nil. reflexivity.
+  - rewrite evalOOB_pure; auto.
+    + rewrite (E _ eq_refl). reflexivity.
+    + intros q Hq. rewrite <- Es in Hq. apply select_In in Hq. destruct Hq as [Hq _].
+      unfold m' in Hq. apply negb_true_iff in Hq. apply inrange_false in Hq.
+      apply orb_true_iff. destruct Hq; [left|right]; apply Qle_bool_iff; lra.
+Qed.
+
+Lemma In_select {A} (m : A -> bool) l x : In x l -> m x = true -> In x (select (map m l) l).
+Proof.
+  induction l as [|y r IH]; [intros []|].
+  cbn [map select]. intros [<-|H] Hm.
+  - rewrite Hm. left; reflexivity.
+  - destruct (m y); [right|]; apply IH; assumption.
+Qed.
+
+Lemma existsb_map_true {A} (m : A -> bool) l x : In x l -> m x = true ->
+  existsb (fun b => b) (map m l) = true.
+Proof.
+  intros Hx Hm. apply existsb_exists. exists true. split; [|reflexivity].
+  apply in_map_iff. exists x. auto.
+Qed.
+
+(** ERROR mode: a point beyond a side whose mode is ERROR makes the call raise ValueError *)
+Lemma evaluate_error_l s sh pts : Inv s -> hasT s = true -> adaptive s = false ->
+  ((exists q, In q pts /\ q < rmin s) /\ mlo s = ERROR) \/
+  ((exists q, In q pts /\ rmax s < q) /\ mhi s = ERROR) ->
+  evaluate fin s true sh pts = (s, Err EValue).
+Proof.
+  intros [HT _] Hh Ha Hcase. pose proof (range_nonempty s HT Hh) as Hr.
+  unfold evaluate. rewrite Hh. cbn [negb orb]. rewrite map_map.
+  set (m' := fun q => negb (inrange s q)).
+  assert (Hsel : forall q, In q pts -> (q < rmin s \/ rmax s < q) -> In q (select (map m' pts) pts)).
+  { intros q Hq Ho. apply In_select; [exact Hq|]. unfold m'. apply negb_true_iff.
+    destruct (inrange s q) eqn:E; [|reflexivity]. apply inrange_iff in E. destruct Ho; lra. }
+  assert (Hgoal : forall out, (forall q, In q pts -> (q < rmin s \/ rmax s < q) -> In q out) ->
+            evalOOB fin s out = (s, Err EValue)).
+  { intros out Hout. unfold evalOOB.
+    destruct (mode_eqb (mlo s) ERROR && mode_eqb (mhi s) ERROR) eqn:EE; [reflexivity|].
+    rewrite Hh. cbn [negb orb].
+    destruct Hcase as [[[q [Hq Hlt]] Em]|[[q [Hq Hgt]] Em]].
+    - rewrite Em. cbn [mode_eqb andb]. unfold side.
+      rewrite (existsb_map_true (fun q => Qle_bool q (rmin s)) out q); [reflexivity|auto|].
+      apply Qle_bool_iff. lra.
+    - assert (Hlo : mlo s <> ERROR).
+      { intro E. rewrite E, Em in EE. discriminate EE. }
+      replace (mode_eqb (mhi s) NONE) with false by (rewrite Em; reflexivity).
+      rewrite andb_false_r.
+      rewrite (side_pure s (mlo s) (rmin s) (fun q => Qle_bool q (rmin s)) out _ Ha Hlo).
+      rewrite Em. unfold side.
+      rewrite (existsb_map_true (fun q => Qle_bool (rmax s) q) out q); [reflexivity|auto|].
+      apply Qle_bool_iff. lra. }
+  destruct (select (map m' pts) pts) as [|o out] eqn:Es.
+  - exfalso. destruct Hcase as [[[q [Hq Hlt]] _]|[[q [Hq Hgt]] _]]; eapply (Hsel q); eauto.
+  - rewrite Hgoal; [reflexivity|]. intros q Hq Ho. apply Hsel; assumption.
+Qed.
+
+Lemma evalDirect_tags s pts s' ts : evalDirect fin s pts = (s', Ok ts) -> ts = map dirtag pts.
+Proof.
+  unfold evalDirect. destruct (adaptive s).
+  - destruct (schedule fin s pts) as [s1 [u|e]]; intro H; inversion H; reflexivity.
+  - intro H; inversion H; reflexivity.
+Qed.
+
+(** SHAPE: whatever the history, a successful evaluation returns the input shape (plus the
+    value axis for vector-valued functions) and one entry per input element *)
+Lemma shape_contract_l s u sh pts s' sh' ts :
+  evaluate fin s u sh pts = (s', Ok (sh', ts)) ->
+  sh' = oshape (cfg_k s) sh /\ length ts = length pts.
+Proof.
+  unfold evaluate. destruct (negb u || negb (hasT s)).
+  - destruct (evalDirect fin s pts) as [s1 [a|e]] eqn:E; intro H; inversion H; subst.
+    split; [reflexivity|]. apply evalDirect_tags in E. subst. apply map_length.
+  - destruct (select _ pts) as [|o out].
+    + intro H; inversion H; subst. split; [reflexivity|]. apply map_length.
+    + destruct (evalOOB fin s (o :: out)) as [s1 [a|e]]; intro H; inversion H; subst.
+      split; [reflexivity|]. rewrite scatter_length. apply map_length.
+Qed.
+
+(** IN RANGE => SPLINE, for every history (adaptive bookkeeping included): an element inside
+    the current range is answered by the current spline at that point, inside its knots *)
+Lemma inrange_spline_l s sh pts s' sh' ts i q : Inv s -> hasT s = true ->
+  evaluate fin s true sh pts = (s', Ok (sh', ts)) ->
+  nth_error pts i = Some q -> inrange s q = true -> nth_error ts i = Some (Spl 0 KIn q).
+Proof.
+  intros [HT _] Hh. unfold evaluate. rewrite Hh. cbn [negb orb]. intros H Hi Hq.
+  assert (Hb : nth_error (map (fun q => if inrange s q then splineAt s 0 q else Uninit) pts) i
+               = Some (Spl 0 KIn q)).
+  { rewrite (map_nth_error _ _ _ Hi). rewrite Hq. f_equal. apply splineAt_in; auto.
+    apply inrange_iff; exact Hq. }
+  destruct (select _ pts) as [|o out].
+  - inversion H; subst. exact Hb.
+  - destruct (evalOOB fin s (o :: out)) as [s1 [a|e]]; inversion H; subst.
+    rewrite scatter_keep; [exact Hb|]. rewrite map_map. rewrite (map_nth_error _ _ _ Hi).
+    rewrite Hq. reflexivity.
+Qed.
+
+(* ------------------------------------------------------------------------------------ *)
+(** * Derivatives *)
+
+Lemma deriv_shape_l s n u sh pts dx pos s' sh' ts :
+  derivative fin s n u sh pts dx pos = (s', Ok (sh', ts)) ->
+  sh' = oshape (cfg_k s) sh /\ length ts = length pts.
+Proof.
+  unfold derivative. destruct (negb u || negb (hasT s) || (2 <? n)%nat).
+  - destruct ((2 <? n)%nat || (n =? 0)%nat); [intro H; discriminate H|].
+    destruct (twice (evalDirect fin) s pos) as [s1 [a|e]]; intro H; inversion H; subst.
+    split; [reflexivity|]. unfold fd_columns. rewrite map_length, seq_length. reflexivity.
+  - destruct (select _ pts) as [|o out].
+    + intro H; inversion H; subst. split; [reflexivity|]. apply map_length.
+    + match goal with |- context [twice (evalOOB fin) s ?P] =>
+        destruct (twice (evalOOB fin) s P) as [s1 [a|e]] end; intro H; inversion H; subst.
+      split; [reflexivity|]. rewrite scatter_length. apply map_length.
+Qed.
+
+(** inside the range the derivative is the spline's derivative of that order at that point,
+    element by element, for every history *)
+Lemma deriv_inrange_l s n sh pts dx pos s' sh' ts i q : Inv s -> hasT s = true ->
+  (n = 1 \/ n = 2)%nat ->
+  derivative fin s n true sh pts dx pos = (s', Ok (sh', ts)) ->
+  nth_error pts i = Some q -> inrange s q = true -> nth_error ts i = Some (DOne (Spl n KIn q)).
+Proof.
+  intros [HT _] Hh Hn. unfold derivative. rewrite Hh. cbn [negb orb].
+  replace (2 <? n)%nat with false by (destruct Hn; subst; reflexivity).
+  intros H Hi Hq.
+  assert (Hb : nth_error (map (fun q => DOne (if inrange s q then splineAt s n q else Uninit)) pts) i
+               = Some (DOne (Spl n KIn q))).
+  { rewrite (map_nth_error _ _ _ Hi). rewrite Hq. do 2 f_equal. apply splineAt_in; auto.
+    apply inrange_iff; exact Hq. }
+  destruct (select _ pts) as [|o out].
+  - inversion H; subst. exact Hb.
+  - match type of H with context [twice (evalOOB fin) s ?P] =>
+      destruct (twice (evalOOB fin) s P) as [s1 [a|e]] end; inversion H; subst.
+    rewrite scatter_keep; [exact Hb|]. rewrite map_map. rewrite (map_nth_error _ _ _ Hi).
+    rewrite Hq. reflexivity.
+Qed.
+
+(* ------------------------------------------------------------------------------------ *)
+(** * Adaptive trigger *)
+
+Lemma extend_counters s a b pl ph : cnt s = 0%nat -> pend s = [] ->
+  cnt (fst (extend fin s a b pl ph)) = 0%nat /\ pend (fst (extend fin s a b pl ph)) = [].
+Proof.
+  intros Hc Hp. unfold extend, newTable.
+  assert (HI : forall X, cnt (fst (interpolate fin s X)) = 0%nat /\ pend (fst (interpolate fin s X)) = []).
+  { intro X. destruct (interpolate_cases s X) as [[_ [_ E]]|[_ E]]; rewrite E; cbn; auto. }
+  destruct (hasT s); cbn [negb]; [|apply HI].
+  match goal with |- context [interpolate fin s ?X] =>
+    specialize (HI X); destruct (interpolate fin s X) as [s' [u|e]] end; cbn [fst] in *; [|exact HI].
+  destruct (adaptive s'); [cbn; auto|exact HI].
+Qed.
+
+(** an update happens exactly when the pending count reaches the threshold; it clears the
+    counters; below the threshold the new distinct finite points are appended and the table is
+    untouched; a call contributing no finite point changes nothing *)
+Lemma adaptive_trigger_l s pts :
+  let xv := usort (filter fin pts) in
+  (xv = [] -> schedule fin s pts = (s, Ok tt)) /\
+  (xv <> [] -> (cnt s + length xv < cfg_thr s)%nat ->
+     schedule fin s pts = (set_adapt s (adaptive s) (cnt s + length xv) (pend s ++ xv), Ok tt)) /\
+  (xv <> [] -> (cfg_thr s <= cnt s + length xv)%nat ->
+     schedule fin s pts = adaptiveUpdate fin (set_adapt s (adaptive s) (cnt s + length xv) (pend s ++ xv))
+     /\ cnt (fst (schedule fin s pts)) = 0%nat /\ pend (fst (schedule fin s pts)) = []).
+Proof.
+  intro xv. unfold schedule. fold xv. destruct xv as [|x r] eqn:E.
+  - split; [reflexivity|]. split; intro H; congruence.
+  - split; [intro H; discriminate H|]. split; intros _ Ht.
+    + replace (_ <=? _)%nat with false; [reflexivity|]. symmetry. apply Nat.leb_gt. cbn [cfg_thr cnt set_adapt]. exact Ht.
+    + replace (_ <=? _)%nat with true by (symmetry; apply Nat.leb_le; cbn [cfg_thr cnt set_adapt]; exact Ht).
+      split; [reflexivity|]. unfold adaptiveUpdate.
+      match goal with |- context [set_adapt ?S ?A 0%nat []] => set (s0 := set_adapt S A 0%nat []) end.
+      destruct (hasT _); [apply extend_counters; reflexivity|].
+      destruct (Qeq_bool _ _); [cbn; auto|apply extend_counters; reflexivity].
+Qed.
+
+(** np.unique: the scheduled points are strictly increasing (sorted, no duplicates) *)
+Lemma uinsert_incr x l : incr l -> incr (uinsert x l).
+Proof.
+  induction l as [|y r IH]; intro H; [cbn; auto|].
+  cbn [uinsert]. destruct (Qcompare x y) eqn:E.
+  - exact H.
+  - apply incr_cons; [exact H|]. apply Qlt_alt in E. intros z [<-|Hz]; [exact E|].
+    pose proof (incr_head_lt y r H z Hz). lra.
+  - apply Qgt_alt in E. apply incr_cons; [apply IH; eapply incr_tail; eauto|].
+    assert (Hin : forall z, In z (uinsert x r) -> z == x \/ In z r).
+    { clear. induction r as [|w r IH]; intros z Hz.
+      - destruct Hz as [<-|[]]. left; reflexivity.
+      - cbn [uinsert] in Hz. destruct (Qcompare x w) eqn:E.
+        + right; exact Hz.
+        + destruct Hz as [<-|Hz]; [left; reflexivity|right; exact Hz].
+        + destruct Hz as [<-|Hz]; [right; left; reflexivity|].
+          destruct (IH z Hz); [left; assumption|right; right; assumption]. }
+    intros z Hz. destruct (Hin z Hz) as [Hz'|Hz']; [lra|eapply incr_head_lt; eauto].
+Qed.
+
+Lemma usort_incr_l l : incr (usort l).
+Proof. induction l as [|x r IH]; [exact I|]. cbn [usort fold_right]. apply uinsert_incr. exact IH. Qed.
+
+(* ------------------------------------------------------------------------------------ *)
+(** * Non-finite rows, round trip, mode change *)
+
+(** a table is built from EXACTLY the abscissae whose rows are finite (each bad row dropped on
+    its own, every good one kept), whatever the return dimension; and the build succeeds as
+    soon as two finite rows remain *)
+Lemma nonfinite_rows_l s a b n :
+  (forall s', newTable fin s a b n = (s', Ok tt) ->
+     tab s' = filter fin (linspace a b n) /\ hasT s' = true /\
+     rmin s' = hd 0 (tab s') /\ rmax s' = last (tab s') 0) /\
+  (a < b -> (2 <= length (filter fin (linspace a b n)))%nat ->
+     exists s', newTable fin s a b n = (s', Ok tt)).
+Proof.
+  unfold newTable. split.
+  - intros s' H. destruct (interpolate_cases s (linspace a b n)) as [[Hi [_ E]]|[_ E]];
+      rewrite E in H; inversion H; subst. cbn. auto using qmin_incr, qmax_incr.
+  - intros Hab Hl. destruct (interpolate_cases s (linspace a b n)) as [[_ [_ E]]|[N _]].
+    + eexists; exact E.
+    + exfalso. apply N. split; [apply incr_filter, linspace_incr; exact Hab|exact Hl].
+Qed.
+
+(** write + read reproduces the state exactly (the 15-digit text format is validated on the
+    real class); changing the modes keeps the table and sets the extrapolate flag *)
+Lemma roundtrip_l s : Inv s -> hasT s = true -> writeRead fin s = (s, Ok tt).
+Proof.
+  intros [HT _] Hh. unfold writeRead. rewrite Hh. rewrite interpolate_tab by assumption.
+  destruct (HT Hh) as [_ [_ [_ [_ [Hex _]]]]]. rewrite <- Hex.
+  destruct s; cbn in *. subst. reflexivity.
+Qed.
+
+Lemma setModes_spec_l s a b : Inv s -> hasT s = true ->
+  exists s', setModes fin s a b = (s', Ok tt) /\ tab s' = tab s /\ rmin s' = rmin s /\
+             rmax s' = rmax s /\ mlo s' = a /\ mhi s' = b /\ extrap s' = (is_fun a || is_fun b).
+Proof.
+  intros [HT _] Hh. unfold setModes. cbn [hasT set_modes]. rewrite Hh.
+  destruct (HT Hh) as [Hi [Hl [Hmin [Hmax [_ Hf]]]]].
+  destruct (interpolate_cases (set_modes s a b) (tab (set_modes s a b))) as [[_ [_ E]]|[N _]].
+  - rewrite E. eexists; split; [reflexivity|]. cbn. rewrite (filter_all fin (tab s) Hf).
+    rewrite (qmin_incr _ Hi), (qmax_incr _ Hi). rewrite <- Hmin, <- Hmax. repeat split; reflexivity.
+  - exfalso. apply N. cbn [tab set_modes]. rewrite (filter_all fin (tab s) Hf). auto.
+Qed.
+
+(* ------------------------------------------------------------------------------------ *)
+(** * No spurious failure: with a table and no ERROR mode an evaluation never raises,
+      adaptive updates in the middle of the call included *)
+
+Definition Keeps (s s' : st) : Prop := hasT s' = true /\ mlo s' = mlo s /\ mhi s' = mhi s.
+
+Lemma interpolate_keeps s X s' : interpolate fin s X = (s', Ok tt) -> Keeps s s'.
+Proof.
+  intro H. destruct (interpolate_cases s X) as [[_ [_ E]]|[_ E]]; rewrite E in H; inversion H; subst.
+  repeat split.
+Qed.
+
+Lemma extend_keeps s a b pl ph s' : extend fin s a b pl ph = (s', Ok tt) -> Keeps s s'.
+Proof.
+  unfold extend, newTable. destruct (hasT s); cbn [negb]; [|apply interpolate_keeps].
+  match goal with |- context [interpolate fin s ?X] =>
+    pose proof (interpolate_keeps s X) as K; destruct (interpolate fin s X) as [s1 [[]|e]] end;
+    intro H; inversion H; subst.
+  specialize (K _ eq_refl). destruct (adaptive s1); exact K.
+Qed.
+
+Lemma schedule_total s pts : Inv s -> hasT s = true ->
+  exists s', schedule fin s pts = (s', Ok tt) /\ Keeps s s'.
+Proof.
+  intros [HT _] Hh. unfold schedule. destruct (usort (filter fin pts)) as [|x xv].
+  - eexists; split; [reflexivity|]. repeat split; assumption.
+  - match goal with |- context [adaptiveUpdate fin ?S1] => set (s1 := S1) end.
+    destruct (cfg_thr s1 <=? cnt s1)%nat.
+    + unfold adaptiveUpdate. change (hasT s1) with (hasT s). rewrite Hh.
+      match goal with |- context [extend fin ?S0 ?A ?B ?C ?D] =>
+        destruct (extend_total S0 A B C D HT Hh) as [s' E]; rewrite E;
+        pose proof (extend_keeps S0 A B C D s' E) as K end.
+      eexists; split; [reflexivity|exact K].
+    + eexists; split; [reflexivity|]. repeat split; assumption.
+Qed.
+
+Lemma evalDirect_total s pts : Inv s -> hasT s = true ->
+  exists s', evalDirect fin s pts = (s', Ok (map dirtag pts)) /\ Keeps s s'.
+Proof.
+  intros HI Hh. unfold evalDirect. destruct (adaptive s).
+  - destruct (schedule_total s pts HI Hh) as [s' [E K]]. rewrite E. eexists; split; [reflexivity|exact K].
+  - eexists; split; [reflexivity|]. repeat split; assumption.
+Qed.
+
+Lemma side_total s m edge mask pts acc : Inv s -> hasT s = true -> m <> ERROR ->
+  exists s' ts, side fin s m edge mask pts acc = (s', Ok ts) /\ Keeps s s'.
+Proof.
+  intros HI Hh Hm. unfold side.
+  assert (K0 : Keeps s s) by (repeat split; assumption).
+  destruct (existsb _ mask); [|do 2 eexists; split; [reflexivity|exact K0]].
+  destruct m; [congruence| | |]; try (do 2 eexists; split; [reflexivity|exact K0]).
+  destruct (evalDirect_total s (select mask pts) HI Hh) as [s' [E K]]. rewrite E.
+  do 2 eexists; split; [reflexivity|exact K].
+Qed.
+
+Lemma evalOOB_total s pts : Inv s -> hasT s = true -> mlo s <> ERROR -> mhi s <> ERROR ->
+  exists s' ts, evalOOB fin s pts = (s', Ok ts).
+Proof.
+  intros HI Hh Hlo Hhi. unfold evalOOB.
+  replace (mode_eqb (mlo s) ERROR) with false
+    by (symmetry; destruct (mode_eqb (mlo s) ERROR) eqn:E; [apply mode_eqb_eq in E; congruence|reflexivity]).
+  cbn [andb]. rewrite Hh. cbn [negb orb]. destruct (mode_eqb (mlo s) NONE && mode_eqb (mhi s) NONE).
+  - destruct (evalDirect_total s pts HI Hh) as [s' [E _]]. rewrite E. eauto.
+  - match goal with |- context [side fin s ?m ?e ?k ?p ?a] =>
+      destruct (side_total s m e k p a HI Hh Hlo) as [s1 [acc1 [E [Hh1 [K1 K2]]]]];
+      pose proof (side_good s m e k p a HI) as G; rewrite E in *; cbn [fst] in G end.
+    assert (Hhi1 : mhi s1 <> ERROR) by (rewrite K2; exact Hhi).
+    match goal with |- context [side fin s1 ?m ?e ?k ?p ?a] =>
+      destruct (side_total s1 m e k p a (proj1 G) Hh1 Hhi1) as [s2 [acc2 [E2 _]]]; rewrite E2 end.
+    eauto.
+Qed.
+
+Lemma evaluate_total_l s sh pts : Inv s -> hasT s = true -> mlo s <> ERROR -> mhi s <> ERROR ->
+  exists s' ts, evaluate fin s true sh pts = (s', Ok (oshape (cfg_k s) sh, ts)).
+Proof.
+  intros HI Hh Hlo Hhi. unfold evaluate. rewrite Hh. cbn [negb orb].
+  destruct (select _ pts) as [|o out]; [eauto|].
+  destruct (evalOOB_total s (o :: out) HI Hh Hlo Hhi) as [s' [ts E]]. rewrite E. eauto.
+Qed.
+End Props.
